@@ -162,3 +162,29 @@ theorem formulas_read_the_expected_fields_C12 :
   rw [Rubato.FormulaTie.formulas_read_the_expected_fields]
   decide
 end Rubato.C12
+
+namespace Rubato.C12
+open Rubato Rubato.Gen
+
+/-- tie G7: `setChunk` of the model is `set_chunk_size` as regenerated: the sinc types reject exactly when the regenerated
+test `chunksize > self.max_chunk_size || chunksize == 0` holds (payload `max_chunk_size`, request), the other five types
+answer `ChunkSizeNotAdjustable` -/
+theorem set_chunk_size_is_the_source_text {ρ σ : Type} [RNum ρ] [SNum ρ σ] (s : AState ρ σ) (n : Nat) :
+    s.setChunk n =
+      (match s.kind with
+       | .fastIn | .fastOut => (s, .error .chunkNotAdjustable)
+       | .sincIn =>
+         if Formulas.sincIn_chunk_rejected (ρ := ρ) n s.maxChunk then (s, .error (.invalidChunk s.maxChunk n))
+         else ({ s with chunk := n }, .ok ())
+       | .sincOut =>
+         if Formulas.sincOut_chunk_rejected (ρ := ρ) n s.maxChunk then (s, .error (.invalidChunk s.maxChunk n))
+         else ({ s with chunk := n, needed := neededSinc s.lastIndex n s.ratio s.target s.L }, .ok ())) :=
+  FormulaTie.setChunk_is_generated s n
+
+/-- tie G7: the relative setter is the absolute setter at the regenerated `resample_ratio_original * rel_ratio` -/
+theorem relative_setter_is_the_source_text {ρ σ : Type} [RNum ρ] [SNum ρ σ] (s : AState ρ σ) (rel : ρ) (ramp : Bool) :
+    s.setRatioRelative rel ramp = s.setRatio (Formulas.fastIn_rel_new_ratio s.orig rel) ramp ∧
+    Formulas.fastIn_rel_new_ratio s.orig rel = Formulas.sincOut_rel_new_ratio s.orig rel :=
+  ⟨rfl, rfl⟩
+
+end Rubato.C12
